@@ -1,0 +1,49 @@
+//go:build verif
+
+// Contracts for package pubsub (comment-only; read by /verif/cmd/govc).
+package pubsub
+
+// ---- wire size of a batch: every message costs one tag byte, the varint of its length, its bytes ----
+//@ spec func varintLen(x int) int = ite(x < 128, 1, ite(x < 16384, 2, ite(x < 2097152, 3, ite(x < 268435456, 4, ite(x < 34359738368, 5, ite(x < 4398046511104, 6, ite(x < 562949953421312, 7, ite(x < 72057594037927936, 8, ite(x < 9223372036854775808, 9, 10)))))))))
+//@ spec func msgSize(n int) int = 1 + varintLen(n) + n
+//@ spec rec func encSize(p [][]byte, n int) int = ite(n <= 0, 0, encSize(p, n - 1) + msgSize(len(p[n - 1])))
+// the wire size of a prefix depends only on the messages in that prefix
+//@ lemma encSize_frame props C32 reveal encSize induct n: forall n int, p [][]byte, q [][]byte :: (forall x int :: 0 <= x && x < n ==> p[x] == q[x]) ==> encSize(p, n) == encSize(q, n)
+// representation invariant of the buffer: the tracked size IS the wire size of the pending batch, within the limit
+//@ spec func RI(m *MessageBuffer) bool = m.pendingSize == encSize(m.pending, len(m.pending)) && m.pendingSize <= m.maxSize && m.maxSize <= 4611686018427387904
+
+// canoto wire format (trusted): a repeated-bytes field is encoded as tag, length varint, bytes per element
+//@ func CreateBatchMessage
+//@   trusted
+//@   noframe
+//@   ensures len(result) == encSize(msgs, len(msgs))
+
+//@ func batchedMessageSize props C32
+//@   ensures result == msgSize(len(msg))
+
+// every batch handed to the queue is the encoding of the pending messages and is at most maxSize long
+//@ func (*MessageBuffer).clearPending props C32
+//@   requires RI(m)
+//@   reveal encSize
+//@   modifies m.pendingSize, m.pending
+//@   at call 1 assert len(bm) <= m.maxSize
+//@   ensures m.pendingSize == 0 && len(m.pending) == 0 && RI(m)
+
+// Send: a message is either rejected (closed / too large even alone) leaving the buffer untouched, or
+// appended after the messages still pending -- flushing those first, in one batch, if it would not fit
+//@ func (*MessageBuffer).Send props C32
+//@   requires RI(m)
+//@   uses encSize_frame
+//@   reveal encSize
+//@   modifies m.pendingSize, m.pending
+//@   ensures RI(m)
+//@   ensures err != nil ==> len(m.pending) == old(len(m.pending)) && m.pendingSize == old(m.pendingSize)
+//@   ensures err == nil ==> len(m.pending) >= 1 && str(m.pending[len(m.pending) - 1]) == str(msg)
+//@   ensures err == nil ==> len(m.pending) == 1 || (len(m.pending) == old(len(m.pending)) + 1 && (forall j int :: 0 <= j && j < old(len(m.pending)) ==> m.pending[j] == old(m.pending[j])))
+//@   ensures (err == nil) == (!old(m.closed) && msgSize(len(msg)) <= m.maxSize)
+
+//@ func (*MessageBuffer).Close props C32
+//@   requires RI(m)
+//@   modifies m.pendingSize, m.pending, m.closed
+//@   ensures err == nil ==> m.closed && len(m.pending) == 0
+//@   ensures err != nil ==> old(m.closed)
